@@ -160,7 +160,7 @@ var denyPkgs = map[string]bool{
 	"encoding/json": true, "reflect": true, "internal/reflectlite": true, "os": true, "syscall": true,
 	"runtime": true, "time": true, "context": true, "fmt": true, "log": true, "regexp": true,
 	"regexp/syntax": true, "math/rand": true, "math/rand/v2": true, "expvar": true, "sync": true,
-	"sync/atomic": true, "unsafe": true, "net/http": true, "net/netip": true, "io/fs": true,
+	"sync/atomic": true, "unsafe": true, "net/http": true, "net/netip": true,
 	"golang.org/x/sync/singleflight": true, "internal/bytealg": true, "os/signal": true,
 	"path/filepath": true, "html/template": true, "text/template": true, "embed": true, "net": true,
 	"crypto/rand": true, "internal/poll": true, "bufio": true,
